@@ -68,6 +68,8 @@ pub struct Opts {
     pub catalog_ops: bool,
     pub max_value_pages: usize,
     pub bulk_ops: bool,
+    /// raise the frequency of savepoint operations (C07)
+    pub savepoint_heavy: bool,
 }
 
 impl Default for Opts {
@@ -82,6 +84,7 @@ impl Default for Opts {
             catalog_ops: true,
             max_value_pages: 3,
             bulk_ops: true,
+            savepoint_heavy: false,
         }
     }
 }
@@ -168,6 +171,8 @@ pub struct World {
     pub judge_compact_size: bool,
     /// record the data root every reader / ephemeral savepoint pins (for the ownership accountant)
     pub track_pins: bool,
+    /// violations that do not prevent the case from continuing (reported by the check at the end)
+    pub soft: Vec<String>,
 }
 
 pub fn key_u64(i: u64) -> Vec<u8> {
@@ -389,6 +394,7 @@ impl World {
             be_violations: vec![],
             judge_compact_size: false,
             track_pins: false,
+            soft: vec![],
         };
         w.push_commit(true, 0, 0, "create");
         Ok(w)
@@ -484,12 +490,13 @@ impl World {
             restore: None,
         };
         if o.savepoints {
-            p.esp_create = rng.chance(1, 6);
-            p.psp_create = rng.chance(1, 8);
-            if rng.chance(1, 8) {
+            let f = if o.savepoint_heavy { 3 } else { 1 };
+            p.esp_create = rng.chance(f, 6);
+            p.psp_create = rng.chance(f, 8);
+            if rng.chance(f, 8) {
                 p.psp_delete = Some(rng.next());
             }
-            if rng.chance(1, 6) {
+            if rng.chance(f, 6) {
                 p.restore = Some(rng.next());
                 if rng.chance(1, 4) {
                     p.pre_ops = rng.usize(6);
@@ -990,6 +997,14 @@ impl World {
                             );
                             tr!(self, "restore_savepoint order {order} persistent={is_p}");
                             work = (*snap).clone();
+                            if self.opts.savepoint_heavy && self.rng.bool() {
+                                let seen = dump_write(&txn)?;
+                                if let Some(d) = diff_contents(&work, &seen) {
+                                    return oracle(format!(
+                                        "right after restore_savepoint the transaction does not see the captured state: {d}"
+                                    ));
+                                }
+                            }
                             dirty = true;
                             invalidate_after = Some(order);
                             // later persistent savepoints are deleted by the restore
@@ -1252,6 +1267,50 @@ impl World {
         Ok(())
     }
 
+    /// Continue on a crash image that recovered to commit point `idx`: fresh backend, reopened
+    /// database, model rolled back to that commit point, recording restarted.
+    pub fn adopt_image(&mut self, img: Vec<u8>, idx: usize) -> R<()> {
+        self.readers.clear();
+        self.esp.clear();
+        self.db = None;
+        self.harvest();
+        let hook = self.be.lock().sync_hook.clone();
+        let be = MonBackend::from_image(img);
+        be.lock().sync_hook = hook;
+        self.be = be;
+        let db = self
+            .cfg
+            .builder()
+            .create_with_backend(self.be.clone())
+            .map_err(se("open of a crash image"))?;
+        self.db = Some(db);
+        let cp = self.commits[idx].clone();
+        self.visible = cp.contents.clone();
+        // no ephemeral savepoint survives a crash, and persistent ids grow with creation time, so
+        // creation order is the rank of the id
+        let mut psp = BTreeMap::new();
+        for (k, (id, snap)) in cp.psp.iter().enumerate() {
+            psp.insert(
+                *id,
+                Psp {
+                    snap: snap.clone(),
+                    order: k as u64 + 1,
+                },
+            );
+        }
+        self.order = self.order.max(psp.len() as u64 + 1);
+        self.psp = psp;
+        self.commits.truncate(idx + 1);
+        self.be.start_recording();
+        for c in self.commits.iter_mut() {
+            c.req_pos = 0;
+            c.ack_pos = 0;
+            c.durable = true;
+        }
+        self.bump("db.adopted_crash_image");
+        Ok(())
+    }
+
     pub fn close(&mut self) {
         self.readers.clear();
         self.esp.clear();
@@ -1300,9 +1359,17 @@ impl World {
                     let ps = self.cfg.page_size;
                     let free_before = (before_len / ps) as u64 - 1 - allocated_before.min((before_len / ps) as u64 - 1);
                     if self.judge_compact_size {
-                        return oracle(format!(
-                            "compact() grew the file from {before_len} to {after_len} bytes (grew by {} pages; {free_before} free pages before)",
-                            (after_len - before_len) / ps
+                        let grew = ((after_len - before_len) / ps) as u64;
+                        let region = self.cfg.region_pages.unwrap_or(u64::MAX);
+                        // classification used by known_findings.json: an already packed database
+                        // (at most 16 free pages) growing by no more than one region
+                        let class = if free_before <= 16 && grew <= region {
+                            "packed database, growth within one region"
+                        } else {
+                            "unexpected growth"
+                        };
+                        self.soft.push(format!(
+                            "compact() grew the file from {before_len} to {after_len} bytes [{class}] (grew by {grew} pages; {free_before} free pages before; region of {region} pages)"
                         ));
                     }
                 }
